@@ -9,7 +9,7 @@ from vlib.main import MODULES  # noqa
 
 # properties whose check has passed the integration gate (quiet at 3 seeds, mutants caught)
 READY = ['C01', 'C02', 'C03', 'C04', 'C05', 'C06', 'C07', 'C09', 'C10', 'C11', 'C12', 'C13', 'C14', 'C15', 'C16', 'C17',
-         'C19', 'C20']
+         'C18', 'C19', 'C20']
 
 CHECKS = {
     'C01': dict(cat='fault_enumeration', ref='3 C01',
@@ -131,11 +131,15 @@ CHECKS = {
                 technique='Hypothesis histories + enumerated matrices, differential standalone vs suite (fork-'
                           'isolated) + marker-order model'),
     'C18': dict(cat='exploration', ref='3 C18',
-                text='Grammar-generated valid cases mutated by token/char operators and ill-formed '
-                     'integer/regex/glob vocab; oracle: documented exit codes only, no escaped exception, no '
-                     'INTERNAL_ERROR/traceback, reported source lines exist.',
-                note='',
-                technique='grammar-based mutation fuzzing (Hypothesis; atheris in thorough)'),
+                text='Grammar-generated valid cases mutated by token/char operators and ill-formed vocabularies '
+                     '(INTEGER per exception class, REGEX, replacement template, GLOB, RANGE, PATH, timeout, names, '
+                     'relativity options, here-document markers), truncation at every character, 204 literal '
+                     'texts (one per kind of mistake the statement names), deep nesting; oracle: terminates, '
+                     'documented exit code consistent with the identifier, no escaped exception, no INTERNAL_ERROR '
+                     '/ traceback, exit 65 for targeted mistakes, reported file/line/source exist.',
+                note='Known findings KF-C18-4/5/8/11 identified by defect models; in-process runs (driver catches '
+                     'BaseException); coverage-guided campaign over the grammar decoder in both tiers.',
+                technique='grammar-based mutation fuzzing (Hypothesis + atheris), report-consistency oracle'),
     'C19': dict(cat='exploration', ref='3 C19',
                 text='Every place a process can start x child behaviour x timeout history x other settings made in '
                      '[setup] (env with/without -of, cd, stdin), run in-process (thorough: also as sub-processes) '
